@@ -123,24 +123,44 @@ Fixpoint chk_sock_from (st : pstate) (steps : list (sstep * list (hport * bool))
 Definition chk_sock (steps : list (sstep * list (hport * bool))) : bool :=
   match chk_sock_from (mkPS [] [] []) steps 0 with None => true | Some _ => false end.
 
-(** monitor for ports_distinct_held on the implementation's own answers: the ports handed out and not yet
-    closed are pairwise distinct per protocol, and each of them is refused to the harness's own bind *)
-Fixpoint held_after (held : list (str * list hport)) (steps : list (sstep * list (hport * bool))) : bool :=
+(** monitor for ports_distinct_held / failed_open_leaves_nothing on the implementation's own answers: the ports
+    handed out and not yet closed are pairwise distinct per protocol and each of them is refused to the harness's
+    own bind; a closed pod's ports can be bound again; after a FAILED open every requested fixed port that nobody
+    holds can be bound *)
+Definition probe_free (x : hport) (probes : list (hport * bool)) : bool :=
+  forallb (fun pr => negb (hport_eqb x (fst pr)) || snd pr) probes.
+Fixpoint held_after (held : list (str * list hport)) (foreign leaked : list hport)
+         (steps : list (sstep * list (hport * bool))) : bool :=
   match steps with
   | [] => true
   | (s, probes) :: r =>
-      let held' :=
+      let mine_of ps got := flat_map (fun pg => if snd pg =? 0 then [] else [(lower (p_proto (fst pg)), snd pg)])
+                                     (combine ps got) in
+      let '(held', foreign', leaked') :=
         match s with
         | SOpen pod random ps false got =>
-            let mine := flat_map (fun pg => if snd pg =? 0 then [] else [(lower (p_proto (fst pg)), snd pg)])
-                                 (combine ps got) in
-            match mine with [] => held | _ => (pod, mine) :: held end
-        | SClose pod => held_remove pod held
-        | _ => held
+            match mine_of ps got with
+            | [] => (held, foreign, leaked)
+            | mine => ((pod, mine) :: held_remove pod held, foreign,
+                       leaked ++ match held_lookup pod held with Some l => l | None => [] end)
+            end
+        | SClose pod => (held_remove pod held, foreign, leaked)
+        | SFBind x => (held, x :: foreign, leaked)
+        | SFRelease x => (held, filter (fun y => negb (hport_eqb x y)) foreign, leaked)
+        | _ => (held, foreign, leaked)
         end in
       let all := flat_map snd held' in
+      match s with
+      | SClose pod => forallb (fun x => hmem x (all ++ foreign' ++ leaked') || probe_free x probes)
+                              (match held_lookup pod held with Some l => l | None => [] end)
+      | SOpen pod random ps true got =>
+          forallb (fun p => (p_host p =? 0) || negb (known_proto (lower (p_proto p))) ||
+                            hmem (lower (p_proto p), p_host p) (all ++ foreign' ++ leaked') ||
+                            probe_free (lower (p_proto p), p_host p) probes) ps
+      | _ => true
+      end &&
       hnodup all &&
       forallb (fun x => forallb (fun pr => negb (hport_eqb x (fst pr)) || negb (snd pr)) probes) all &&
-      held_after held' r
+      held_after held' foreign' leaked' r
   end.
-Definition mon_held (steps : list (sstep * list (hport * bool))) : bool := held_after [] steps.
+Definition mon_held (steps : list (sstep * list (hport * bool))) : bool := held_after [] [] [] steps.
